@@ -26,23 +26,47 @@ pub struct HugeCase {
     /// they leave behind (spare capacity, flags, renumbered slots) must not change any answer
     #[serde(default)]
     pub prelude: u16,
+    /// 0: the long mixed script; 1: operations aimed at chosen heap positions (level boundaries, the
+    /// last parent and its lone child, first / last node of every level) of a queue whose
+    /// arrangement is steered so that the sift paths end at a chosen leaf
+    #[serde(default)]
+    pub script: u8,
+    /// which leaf the sift-down path from the root is steered to (script 1, single-ended queue)
+    #[serde(default)]
+    pub aim: u8,
 }
 
 pub const HUGE_SIZES: [usize; 16] = [4095, 4096, 4097, 4098, 5000, 8191, 8192, 8193, 16384, 16385, 32768, 65535, 65536, 65537, 70001, 131073];
+
+/// sizes of the position battery: around every level boundary from 2^12 to 2^17, even and odd
+pub const POSITION_SIZES: [usize; 22] = [4094, 4095, 4096, 4097, 4098, 6000, 8190, 8191, 8192, 8193, 8194, 12001, 16383, 16384, 16386, 32767, 32768, 32770, 65535, 65536, 65538, 131072];
 
 pub fn huge_cases(prop: u8) -> Vec<HugeCase> {
     let kinds: &[Kind] = match prop {
         1 => &[Kind::PQ],
         2 => &[Kind::DPQ],
-        3 | 6 | 8 => &[Kind::PQ, Kind::DPQ],
+        3 | 6 | 8 | 11 => &[Kind::PQ, Kind::DPQ],
         _ => return vec![],
     };
     let mut v = Vec::new();
+    if matches!(prop, 1 | 2 | 11) {
+        for &kind in kinds {
+            for (i, &n) in POSITION_SIZES.iter().enumerate() {
+                for aim in 0..4u8 {
+                    // the double-ended queue is not steered: the aim selects the priority pattern there
+                    v.push(HugeCase { huge: true, kind, n, pattern: aim, seed: (i as u64) * 7 + aim as u64, cost: false, prelude: 0, script: 1, aim });
+                }
+            }
+        }
+    }
+    if prop == 11 {
+        return v;
+    }
     for &kind in kinds {
         for (i, &n) in HUGE_SIZES.iter().enumerate() {
             for pattern in 0..(if prop == 6 { 4u8 } else { 3u8 }) {
                 // C03/C08 visit a third of the grid each run (the seed rotates it)
-                v.push(HugeCase { huge: true, kind, n, pattern, seed: (i as u64) * 31 + pattern as u64, cost: false, prelude: ((i as u16) * 37 + pattern as u16 * 11) & 0x3ff });
+                v.push(HugeCase { huge: true, kind, n, pattern, seed: (i as u64) * 31 + pattern as u64, cost: false, prelude: ((i as u16) * 37 + pattern as u16 * 11) & 0x3ff, script: 0, aim: 0 });
             }
         }
     }
@@ -50,7 +74,7 @@ pub fn huge_cases(prop: u8) -> Vec<HugeCase> {
         // many moderately large queues: a partial iter_mut with a dozen rewrites followed by a full
         // drain (an incremental re-seating of the visited elements only fails for some arrangements)
         for s in 0..2400u64 {
-            v.push(HugeCase { huge: true, kind: if s % 2 == 0 { Kind::DPQ } else { Kind::PQ }, n: 4096 + (s as usize * 37) % 1100, pattern: 2, seed: 1000 + s, cost: false, prelude: 0 });
+            v.push(HugeCase { huge: true, kind: if s % 2 == 0 { Kind::DPQ } else { Kind::PQ }, n: 4096 + (s as usize * 37) % 1100, pattern: 2, seed: 1000 + s, cost: false, prelude: 0, script: 0, aim: 0 });
         }
     }
     v
@@ -305,6 +329,134 @@ fn drain_all<Q: Queue>(q: &Q, m: &M, what: &'static str, st: &mut u64) -> R {
     if c.pop_max().is_some() || c.len() != 0 {
         return Err((Group::Content, what, "drained clone is not empty".into()));
     }
+    Ok(())
+}
+
+
+/// priorities that already form a max-heap in slot order and whose greater-child path from the
+/// root ends at the leaf `x`: 4 per level, plus 2 on the path
+fn steered(n: usize, x: usize) -> Vec<i64> {
+    let depth = |i: usize| (usize::BITS - 1 - (i + 1).leading_zeros()) as i64;
+    let d = depth(n - 1);
+    let mut v: Vec<i64> = (0..n).map(|i| 4 * (d - depth(i))).collect();
+    let mut a = x;
+    loop {
+        v[a] += 2;
+        if a == 0 {
+            break;
+        }
+        a = (a - 1) / 2;
+    }
+    v
+}
+
+/// grow a clone by more than half its size (below, then above everything stored) and drain it: turns a
+/// raw order anomaly near the bottom of the heap into wrong answers of pop
+fn grow_and_drain<Q: Queue>(q: &Q, m: &M, op: &'static str, st: &mut u64) -> R {
+    for above in [false, true] {
+        let mut c = q.clone();
+        let mut mm = M { by_id: m.by_id.clone(), set: m.set.clone() };
+        let k = m.len() / 2 + 5;
+        let lo = m.min().unwrap_or(0);
+        let hi = m.max().unwrap_or(0);
+        for j in 0..k {
+            let id = 3_000_000_000u32 + j as u32;
+            let p = if above { hi + 1 + (j % 7) as i64 } else { lo - 1 - (j % 7) as i64 };
+            c.push(Key::new(id, 0), Prio::new(p));
+            mm.set(id, p);
+        }
+        verify(&c, &mm, op, st)?;
+        drain_all(&c, &mm, op, st)?;
+    }
+    Ok(())
+}
+
+fn run_positions<Q: Queue>(c: &HugeCase, prop: u8) -> R {
+    set_default_hb(HasherKind::Xx);
+    COST.with(|x| x.set(false));
+    let n = c.n;
+    let mut st = c.seed ^ 0x9E6C_63D0_676A_9A99;
+    let mut m = M::new();
+    let aims = [n - 1, (1usize << (usize::BITS - 1 - n.leading_zeros())) - 1, n - 2, (n - 2) / 2 + 1];
+    let x = aims[c.aim as usize % 4].min(n - 1);
+    let pr: Vec<i64> = if Q::DOUBLE { (0..n).map(|i| prio(c.pattern, i, n)).collect() } else { steered(n, x) };
+    let v: Vec<(Key, Prio)> = (0..n).map(|i| (Key::new(i as u32, 0), Prio::new(pr[i]))).collect();
+    for (k, p) in v.iter() {
+        m.set(k.id, p.v);
+    }
+    let mut q: Q = Q::from_vec(v);
+    verify(&q, &m, "construction", &mut st)?;
+    // heap positions worth aiming at
+    let mut targets: Vec<usize> = vec![0, 1, 2, 3, 4, 5, 6, n - 1, n - 2, n - 3, (n - 2) / 2, (n - 2) / 2 + 1, (n - 2) / 2 - 1, (n - 1) / 2];
+    let mut b = 8usize;
+    while b <= n {
+        for t in [b - 2, b - 1, b, b + 1, b + b / 2 - 1, b + b / 2] {
+            if t < n {
+                targets.push(t);
+            }
+        }
+        b *= 2;
+    }
+    for _ in 0..6 {
+        targets.push((rng(&mut st) % n as u64) as usize);
+    }
+    // the first operation finds the steered arrangement untouched: the root sinks to the aimed leaf
+    let single = |prop: u8, up: bool| -> &'static str {
+        match (prop, up) {
+            (11, true) => "push_increase",
+            (11, false) => "push_decrease",
+            _ => "change_priority",
+        }
+    };
+    for (round, &t) in targets.iter().enumerate() {
+        for up in [false, true] {
+            // down first on even rounds, up first on odd ones
+            let up = up ^ (round % 2 == 1);
+            let snap = q.snapshot();
+            let len = snap.entries.len();
+            let Some(Some((id, cur))) = snap.entries.get(t.min(len - 1)).copied() else {
+                return Err((Group::Tables, "snapshot", "heap position without a stored element".into()));
+            };
+            let want_p = if up { m.max().unwrap_or(0) + 1 } else { m.min().unwrap_or(0) - 1 };
+            let op = single(prop, up);
+            let got = match (prop, up) {
+                (11, true) => q.push_increase(Key::new(id, 9), Prio::new(want_p)).map(|x| x.v),
+                (11, false) => q.push_decrease(Key::new(id, 9), Prio::new(want_p)).map(|x| x.v),
+                _ => {
+                    if round % 3 == 0 {
+                        let mut old = None;
+                        let r = q.change_priority_by(&id, |p| {
+                            old = Some(p.v);
+                            p.v = want_p;
+                        });
+                        if r { old } else { None }
+                    } else {
+                        q.change_priority(&id, Prio::new(want_p)).map(|x| x.v)
+                    }
+                }
+            };
+            if got != Some(cur) {
+                return Err((Group::Ret, op, format!("{} of the element at heap position {} (item {}, priority {}) to {} returned {:?}", op, t, id, cur, want_p, got)));
+            }
+            m.set(id, want_p);
+            verify(&q, &m, op, &mut st)?;
+            // the moved element is now the unique extreme
+            let ext = if up { q.peek_max().map(|(k, _)| k.id) } else if Q::DOUBLE { q.peek_min().map(|(k, _)| k.id) } else { Some(id) };
+            if ext != Some(id) {
+                return Err((Group::Order, op, format!("after {} of item {} (heap position {} of {}) to the new {} the queue reports item {:?} there", op, id, t, len, if up { "maximum" } else { "minimum" }, ext)));
+            }
+            if !crate::oracle::order_ok(&q.snapshot(), Q::DOUBLE) {
+                // never an alarm by itself: look for a public call that answers wrongly
+                drain_all(&q, &m, op, &mut st)?;
+                grow_and_drain(&q, &m, op, &mut st)?;
+            }
+        }
+        if round == 0 || round == 7 {
+            grow_and_drain(&q, &m, single(prop, false), &mut st)?;
+        }
+    }
+    drain_all(&q, &m, single(prop, true), &mut st)?;
+    grow_and_drain(&q, &m, single(prop, false), &mut st)?;
     Ok(())
 }
 
@@ -673,10 +825,18 @@ fn run<Q: Queue>(c: &HugeCase) -> R {
 }
 
 /// (failure, counted as non-trivial)
+thread_local! {
+    /// the property on whose behalf the position battery runs (selects the operations it uses)
+    pub static HUGE_PROP: std::cell::Cell<u8> = const { std::cell::Cell::new(0) };
+}
+
 pub fn huge_verdict(c: &HugeCase) -> Result<(), Failure> {
-    let r = match c.kind {
-        Kind::PQ => run::<PqHb>(c),
-        Kind::DPQ => run::<DpqHb>(c),
+    let prop = HUGE_PROP.with(|p| p.get());
+    let r = match (c.kind, c.script) {
+        (Kind::PQ, 0) => run::<PqHb>(c),
+        (Kind::DPQ, 0) => run::<DpqHb>(c),
+        (Kind::PQ, _) => run_positions::<PqHb>(c, prop),
+        (Kind::DPQ, _) => run_positions::<DpqHb>(c, prop),
     };
     r.map_err(|(group, op, detail)| Failure {
         group,
